@@ -1,0 +1,111 @@
+// +build verif
+
+package storage
+
+// Hooks for the verification harness (/verif). Compiled only with -tags verif.
+
+import (
+	"fmt"
+	"sync"
+
+	"github.com/marekgalovic/anndb/index"
+	pb "github.com/marekgalovic/anndb/protobuf"
+	"github.com/marekgalovic/anndb/utils"
+
+	"github.com/golang/protobuf/proto"
+	uuid "github.com/satori/go.uuid"
+	log "github.com/sirupsen/logrus"
+)
+
+// VerifPartition is a stand-alone partition state machine: the real index, notificator,
+// process / snapshot / processSnapshot functions, without a raft group.
+type VerifPartition struct {
+	p *partition
+}
+
+func VerifNewPartition(dim uint32, space pb.Space) *VerifPartition {
+	id := uuid.NewV4()
+	ds := &Dataset{id: uuid.NewV4(), meta: &pb.Dataset{Dimension: dim, Space: space, PartitionCount: 1, ReplicationFactor: 1}}
+	p := &partition{
+		id:          id,
+		meta:        &pb.Partition{Id: id.Bytes()},
+		dataset:     ds,
+		index:       newIndexFromDatasetProto(ds.Meta()),
+		raftMu:      &sync.RWMutex{},
+		notificator: utils.NewNotificator(),
+		log:         log.WithFields(log.Fields{"partition_id": id}),
+	}
+	return &VerifPartition{p}
+}
+
+func (v *VerifPartition) Index() *index.Hnsw { return v.p.index }
+
+// Apply marshals the change with a fresh notification id, feeds the bytes to the real
+// process function as the raft apply loop would, and returns what was notified.
+func (v *VerifPartition) Apply(change *pb.PartitionChange) (result interface{}, delivered bool, err error, panicked interface{}) {
+	notifC, notifId := v.p.notificator.Create(1)
+	defer v.p.notificator.Remove(notifId)
+	change.NotificationId = notifId.Bytes()
+	data, merr := proto.Marshal(change)
+	if merr != nil {
+		return nil, false, merr, nil
+	}
+	return v.ApplyBytes(data, notifC)
+}
+
+// ApplyBytes feeds raw entry bytes (e.g. recorded from another replica) to process.
+func (v *VerifPartition) ApplyBytes(data []byte, notifC <-chan interface{}) (result interface{}, delivered bool, err error, panicked interface{}) {
+	func() {
+		defer func() {
+			if r := recover(); r != nil {
+				panicked = fmt.Sprint(r)
+			}
+		}()
+		err = v.p.process(data)
+	}()
+	if notifC != nil {
+		select {
+		case result = <-notifC:
+			delivered = true
+		default:
+		}
+	}
+	return
+}
+
+// ApplyEntry replays raw entry bytes on this replica with a waiting channel registered under
+// the entry's own notification id (capacity as the production code creates it).
+func (v *VerifPartition) ApplyEntry(data []byte) (result interface{}, delivered bool, err error, panicked interface{}) {
+	var change pb.PartitionChange
+	if uerr := proto.Unmarshal(data, &change); uerr == nil {
+		if id, ierr := uuid.FromBytes(change.GetNotificationId()); ierr == nil {
+			c := v.p.notificator.VerifRegister(id, 1)
+			defer v.p.notificator.Remove(id)
+			return v.ApplyBytes(data, c)
+		}
+	}
+	return v.ApplyBytes(data, nil)
+}
+
+// Marshal returns the entry bytes for a change with the given notification id.
+func VerifMarshalChange(change *pb.PartitionChange, notificationId uuid.UUID) ([]byte, error) {
+	change.NotificationId = notificationId.Bytes()
+	return proto.Marshal(change)
+}
+
+func (v *VerifPartition) Snapshot() ([]byte, error) { return v.p.snapshot() }
+func (v *VerifPartition) Restore(data []byte) (err error, panicked interface{}) {
+	defer func() {
+		if r := recover(); r != nil {
+			panicked = fmt.Sprint(r)
+		}
+	}()
+	err = v.p.processSnapshot(data)
+	return
+}
+
+// VerifBatchErrors converts a notified batch result.
+func VerifBatchErrors(res interface{}) (map[uuid.UUID]error, bool) {
+	m, ok := res.(partitionBatchResult)
+	return map[uuid.UUID]error(m), ok
+}
